@@ -101,6 +101,8 @@ def build_property(pid):
         if not os.path.exists(os.path.join(lib.COQ, 'Makefile')) or \
                 os.path.getmtime(os.path.join(lib.COQ, 'Makefile')) < os.path.getmtime(os.path.join(lib.COQ, '_CoqProject')):
             subprocess.run(['coq_makefile', '-f', '_CoqProject', '-o', 'Makefile'], cwd=lib.COQ, check=True, capture_output=True)
+        # the correspondence evaluators (models only, no proofs) must be rebuilt against the regenerated description too
+        subprocess.run(['timeout', '1500', 'make', '-k', f'-j{lib.NPROC}', 'QuantityCorr.vo', 'SolverCorr.vo', 'RelCorr.vo'], cwd=lib.COQ, capture_output=True, text=True)
         # dependencies first (parallel), then the property file itself with its output captured
         deps = subprocess.run(['make', '-s', '-f', 'Makefile', '--no-print-directory', target + 'o', '-n'], cwd=lib.COQ, capture_output=True, text=True)
         p = subprocess.run(['timeout', '1500', 'make', '-k', f'-j{lib.NPROC}', target + 'o'], cwd=lib.COQ, capture_output=True, text=True)
